@@ -13,6 +13,7 @@ EXPLANATION = (
     "backend attaches the callback for success and failure; BatchedCalls survives pickling in order; per-call "
     "state is reset (C04.RESET). Value equality, pool internals and the auto-batching heuristic are NOT decided."
     ' The pre_dispatch amount handed to the look-ahead slice is >= 1 on every path (an amount of 0 would dispatch nothing).'
+    ' One capability flag (supports_retrieve_callback) decides the whole retrieval protocol of the completion tracker (C01.STATUS-MODE); a registered error always re-enters the raising loop (C04.ERROR-SURFACES).'
 )
 ASSUMPTIONS = [
     "the pools call the completion callback at most once per submitted batch",
